@@ -192,6 +192,31 @@ Theorem decompose_area_additivity_regular :
 Proof. exact decompose_area_additive_regular. Qed.
 Print Assumptions decompose_area_additivity_regular.
 
+(* What the containment oracle `inside` IS in the code (RingInside behind BoxInside): ring a counts as
+   inside ring b iff a's bounding box is inside b's and EVERY vertex of a is in the closed region of b
+   (PointInRing: boundary points count as inside).  For this to mean "the region of a lies in the region
+   of b" - which decompose_parent_nearest and the additivity theorems take as the oracle's meaning - the
+   rings must not cross (regularized input): then all vertices in the closed region is equivalent to
+   containment even when rings TOUCH at vertices, whereas a single vertex is not (next theorem).  That
+   equivalence (a Jordan-curve argument) is an assumption, validated at run time: the C++ verdicts are
+   compared with this exact test on touching configurations, and every Decompose output is judged by
+   decomp_check at interior sample points. *)
+Theorem decompose_ring_inside_meaning :
+  forall a b : contour,
+  ring_inside a b = true <-> bbox_inside a b = true /\ forall p, In p a -> point_in_ring p b = true.
+Proof. exact ring_inside_spec. Qed.
+Print Assumptions decompose_ring_inside_meaning.
+
+Theorem decompose_first_vertex_insufficient :
+  exists a b : contour,
+  point_in_ring (hd (0, 0) a) b = true /\ bbox_inside a b = true /\ ring_inside a b = false.
+Proof.
+  exact (ex_intro _ [(7, 3); (5, 6); (9, 6)]
+          (ex_intro _ [(0, 0); (14, 0); (14, 7); (13, 7); (13, 1); (8, 1); (7, 3); (6, 1); (1, 1); (1, 7); (0, 7)]
+             first_vertex_insufficient_witness)).
+Qed.
+Print Assumptions decompose_first_vertex_insufficient.
+
 Example decompose_example :
   decompose_rings [ [(0,0);(10,0);(10,10);(0,10)]; [(1,9);(9,9);(9,1);(1,1)]; [(2,2);(8,2);(8,8);(2,8)];
                     [(3,4);(4,4);(4,3);(3,3)]; [(20,0);(22,0);(22,2);(20,2)] ] = [[0; 1]; [2; 3]; [4]].
